@@ -20,6 +20,10 @@ import z3
 from ir import IR
 
 sys.setrecursionlimit(20000)
+import os
+TRACE_CALLS = bool(os.environ.get("VERIF_TRACE_CALLS"))
+DEBUG_SLOW = os.environ.get("VERIF_DEBUG_SLOW")
+DEBUG_FORKS = os.environ.get("VERIF_DEBUG_FORKS")
 
 
 # --------------------------------------------------------------------------------------- values
@@ -88,6 +92,37 @@ class Iface:
 
     def __repr__(self):
         return "Iface(%s,%r)" % (self.tid, self.val)
+
+
+class CondIface:
+    """interface value given by guarded alternatives [(cond, Iface)], first match wins, nil when none holds
+    (produced by merging nil / non-nil interface values and by the abstract store)"""
+    __slots__ = ("alts",)
+
+    def __init__(self, cond, iface=None):
+        if iface is None:
+            self.alts = tuple(cond)
+        else:
+            self.alts = ((cond, iface),)
+
+    @property
+    def cond(self):
+        """condition under which the value is non-nil"""
+        r = False
+        for c, _ in self.alts:
+            r = b_or(r, c)
+        return r
+
+    def __repr__(self):
+        return "CondIface(%r)" % ([i for _, i in self.alts],)
+
+
+def _iface_alts(v):
+    if v is None:
+        return ()
+    if isinstance(v, Iface):
+        return ((True, v),)
+    return v.alts
 
 
 class Closure:
@@ -164,10 +199,11 @@ class Fork(Exception):
 
 # ------------------------------------------------------------------------------------------ state
 class Frame:
-    __slots__ = ("fn", "b", "i", "prev", "locals", "defers", "ret", "discard", "visits", "rundefers_pending", "results")
+    __slots__ = ("fn", "b", "i", "prev", "locals", "defers", "ret", "discard", "visits", "rundefers_pending", "results", "serial")
 
     def __init__(self, fn):
         self.fn = fn
+        self.serial = next(_obj_counter)
         self.b = 0
         self.i = 0
         self.prev = -1
@@ -179,6 +215,7 @@ class Frame:
 
     def copy(self):
         f = Frame(self.fn)
+        f.serial = self.serial
         f.b, f.i, f.prev = self.b, self.i, self.prev
         f.locals = dict(self.locals)
         f.defers = list(self.defers)
@@ -211,6 +248,7 @@ class State:
         s.trace = self.trace
         s.lenient = self.lenient
         s.goroutines = self.goroutines
+        s.unchecked = getattr(self, "unchecked", False)
         return s
 
     def assume(self, c):
@@ -226,15 +264,43 @@ def new_obj_id():
     return next(_obj_counter)
 
 
+def st_oid(st):
+    """object id = allocation site + per-path count at that site: two arms of a branch that allocate at the same site get
+    the same id, so that pointers agree when the arms are merged"""
+    if st.frames:
+        fr = st.frames[-1]
+        site = "%s:%d:%d" % (fr.fn["name"], fr.b, fr.i)
+    else:
+        site = "top"
+    key = "@" + site
+    k = st.counters.get(key, 0)
+    st.counters[key] = k + 1
+    return "%s#%d" % (site, k)
+
+
 # ----------------------------------------------------------------------------------------- solver
 class SolverCtx:
     def __init__(self, timeout_ms=60000):
         self.s = z3.Solver()
         self.s.set("timeout", timeout_ms)
         self.stack = []
+        self.facts_provider = None
         self.nq = 0
         self.t = 0.0
         self.unknowns = 0
+
+    def set_facts(self, facts):
+        """global axioms (e.g. K_n(c) = keccak(c) for concrete evaluations): asserted below every path condition"""
+        if len(facts) == self.nfacts:
+            return
+        for _ in range(len(self.stack)):
+            self.s.pop()
+        del self.stack[:]
+        for f in facts[self.nfacts:]:
+            self.s.add(f)
+        self.nfacts = len(facts)
+
+    nfacts = 0
 
     def _sync(self, pc):
         k = 0
@@ -252,12 +318,19 @@ class SolverCtx:
     def check(self, pc, extra=None):
         """returns 'sat' | 'unsat' | 'unknown'"""
         t0 = time.time()
+        if self.facts_provider is not None:
+            self.set_facts(self.facts_provider())
         self._sync(pc)
         self.nq += 1
         if extra is not None:
             self.s.push()
             self.s.add(extra)
         r = self.s.check()
+        if DEBUG_SLOW and time.time() - t0 > 2:
+            import traceback
+            print("SLOW QUERY %.1fs result=%s pc=%d" % (time.time() - t0, r, len(pc)), "".join(traceback.format_stack(limit=6)[-5:-1]).replace("\n", " | ")[:600])
+            if DEBUG_SLOW == "dump":
+                open("/tmp/slow_%d.smt2" % self.nq, "w").write(self.to_smt2(pc, extra))
         self.last_model = self.s.model() if r == z3.sat else None
         if extra is not None:
             self.s.pop()
@@ -271,6 +344,9 @@ class SolverCtx:
 
     def to_smt2(self, pc, extra=None):
         s = z3.Solver()
+        if self.facts_provider is not None:
+            for f in self.facts_provider():
+                s.add(f)
         for c in pc:
             s.add(c)
         if extra is not None:
@@ -394,6 +470,9 @@ class Engine:
     def __init__(self, ir: IR, unwind=64, solver_timeout_ms=60000):
         self.ir = ir
         self.solver = SolverCtx(solver_timeout_ms)
+        self.solver.facts_provider = self.keccak_facts
+        self._facts = []
+        self._facts_seen = set()
         self.unwind = unwind
         self.intrinsics = {}
         self.ext_methods = {}  # tid -> set of method names (external dynamic types created by intrinsics)
@@ -442,13 +521,13 @@ class Engine:
         return z
 
     def alloc(self, st, tid, val=None):
-        oid = new_obj_id()
+        oid = st_oid(st)
         st.heap[oid] = self.zero(tid) if val is None else val
         self.objtype[oid] = tid
         return Ptr(oid, ())
 
     def alloc_val(self, st, tid, val):
-        oid = new_obj_id()
+        oid = st_oid(st)
         st.heap[oid] = val
         self.objtype[oid] = tid
         return Ptr(oid, ())
@@ -547,8 +626,12 @@ class Engine:
                     if g.get("pkg") == p:
                         raise Unsupported("global %s of package whose init could not be executed: %s" % (name, why))
         if key not in st.heap:
-            emb = self.ir.embeds.get(name)
-            st.heap[key] = emb if emb is not None else self.zero(g["t"])
+            ext = self.external_globals.get(name)
+            if ext is not None:
+                st.heap[key] = ext(self, st)
+            else:
+                emb = self.ir.embeds.get(name)
+                st.heap[key] = emb if emb is not None else self.zero(g["t"])
             self.objtype[key] = g["t"]
         return Ptr(key, ())
 
@@ -559,6 +642,14 @@ class Engine:
             return True
         if c is False:
             return False
+        cid = c.get_id()
+        ncid = self._neg.get(cid)
+        for p in st.pc:
+            pid = p.get_id()
+            if pid == cid:
+                return True
+            if pid == ncid or self._neg.get(pid) == cid:
+                return False
         r = self.solver.check(st.pc, c)
         if r == "unknown":
             self.stats["unknown_feas"] = self.stats.get("unknown_feas", 0) + 1
@@ -569,6 +660,14 @@ class Engine:
             return True
         if c is False:
             return False
+        cid = c.get_id()
+        ncid = self._neg.get(cid)
+        for p in st.pc:
+            pid = p.get_id()
+            if pid == cid:
+                return True
+            if pid == ncid or self._neg.get(pid) == cid:
+                return False
         return self.solver.check(st.pc, z3.Not(c)) == "unsat"
 
     def fresh(self, st, name, sort_bits=None, kind="bv"):
@@ -608,6 +707,10 @@ class Engine:
         self.explore(st, None, base)
 
     def finish(self, st, kind, info=None):
+        if getattr(st, "unchecked", False) and kind not in ("assume_false",):
+            if self.solver.check(st.pc) == "unsat":
+                self.stats["infeasible_dropped"] = self.stats.get("infeasible_dropped", 0) + 1
+                return
         self.stats["paths"] += 1
         self.results.append((kind, info, st))
         if self.stats["paths"] > self.max_paths:
@@ -650,6 +753,9 @@ class Engine:
                 continue
             # fork request: r = ("fork", alts, join)
             _, alts, join, is_if = r
+            if DEBUG_FORKS:
+                f0 = s.frames[-1]
+                print("FORK", f0.fn["name"].split("/")[-1], "b%d i%d" % (f0.b, f0.i), "is_if", is_if, "join", join, "depth", len(s.frames), "stop", stop)
             self.stats["forks"] += 1
             fname = s.frames[-1].fn["name"] if s.frames else "?"
             self.fn_stats[fname] = self.fn_stats.get(fname, 0) + 1
@@ -661,6 +767,8 @@ class Engine:
                 children.append((c, thunk))
             if join is not None and self.merging and len(children) == 2:
                 depth = len(s.frames)
+                serial = s.frames[-1].serial
+                mystop = ("ret", serial) if join == "ret" else ("blk", depth, join, serial)
                 pre_pc_len = len(s.pc) - (1 if alts[-1][0] is not None else 0)
                 arrived = []
                 for c, thunk in children:
@@ -670,14 +778,14 @@ class Engine:
                         self._finish_exc(c, e)
                         continue
                     cf = c.frames[-1]
-                    if len(c.frames) == depth and cf.b == join and cf.i == cf.fn["blocks"][join]["nphi"]:
+                    if join != "ret" and len(c.frames) == depth and cf.b == join and cf.i == cf.fn["blocks"][join]["nphi"] and cf.serial == serial:
                         arrived.append(c)
                     else:
-                        arrived.extend(self.explore(c, (depth, join), base))
+                        arrived.extend(self.explore(c, mystop, base))
                 merged = self.merge_all(arrived, pre_pc_len)
                 # states in `merged` stand at block `join`; they may already be at the outer stop
                 for m in merged:
-                    if stop is not None and len(m.frames) == stop[0] and m.frames[-1].b == stop[1] and stop == (depth, join):
+                    if stop is not None and stop == mystop:
                         out.append(m)
                     else:
                         work.append(m)
@@ -688,7 +796,7 @@ class Engine:
                     except (PathEnd, GoPanic, Unsupported) as e:
                         self._finish_exc(c, e)
                         continue
-                    if stop is not None and is_if and len(c.frames) == stop[0] and c.frames[-1].b == stop[1]:
+                    if stop is not None and is_if and stop[0] == "blk" and len(c.frames) == stop[1] and c.frames[-1].b == stop[2] and c.frames[-1].serial == stop[3]:
                         out.append(c)
                     else:
                         work.append(c)
@@ -715,7 +823,7 @@ class Engine:
             except MergeFail as e:
                 self.stats["merge_fail"] += 1
                 self.stats.setdefault("merge_fail_why", {})
-                w = str(e)[:80]
+                w = str(e)[:160]
                 self.stats["merge_fail_why"][w] = self.stats["merge_fail_why"].get(w, 0) + 1
                 rest.append(s)
         return [res] + rest
@@ -736,6 +844,16 @@ class Engine:
         if ga is True or gb is True:
             raise MergeFail("no distinguishing guard")
         g = ga
+        newpc_tail = None
+        if self._neg.get(ea[0].get_id()) == eb[0].get_id() or self._neg.get(eb[0].get_id()) == ea[0].get_id():
+            # the two arms of one branch: guard is the branch condition itself
+            g = ea[0]
+            xa = z3.And(*ea[1:]) if len(ea) > 2 else (ea[1] if len(ea) == 2 else None)
+            xb = z3.And(*eb[1:]) if len(eb) > 2 else (eb[1] if len(eb) == 2 else None)
+            if xa is None and xb is None:
+                newpc_tail = ()
+            else:
+                newpc_tail = (z3.If(g, xa if xa is not None else z3.BoolVal(True), xb if xb is not None else z3.BoolVal(True)),)
         fa, fb = a.frames[-1], b.frames[-1]
         if fa.fn is not fb.fn or fa.b != fb.b or fa.i != fb.i:
             raise MergeFail("pc mismatch")
@@ -750,7 +868,10 @@ class Engine:
             if r not in fb.locals:
                 continue
             vb = fb.locals[r]
-            newlocals[r] = va if va is vb else self.merge_val(g, va, vb, rt.get(r))
+            try:
+                newlocals[r] = va if va is vb else self.merge_val(g, va, vb, rt.get(r))
+            except MergeFail as e:
+                raise MergeFail("%s [local %s in %s]" % (e, r, fa.fn["name"].split("/")[-1]))
         # heap
         newheap = {}
         ha, hb = a.heap, b.heap
@@ -759,7 +880,10 @@ class Engine:
             if vb is _MISSING or va is vb:
                 newheap[oid] = va
             else:
-                newheap[oid] = self.merge_val(g, va, vb, self.objtype.get(oid))
+                try:
+                    newheap[oid] = self.merge_val(g, va, vb, self.objtype.get(oid))
+                except MergeFail as e:
+                    raise MergeFail("%s [heap obj %s : %s]" % (e, oid, self.objtype.get(oid)))
         for oid, vb in hb.items():
             if oid not in ha:
                 newheap[oid] = vb
@@ -786,8 +910,11 @@ class Engine:
         fa.locals = newlocals
         res.heap = newheap
         res.world = neww
-        disj = z3.simplify(z3.Or(ga, gb))
-        res.pc = a.pc[:k] if z3.is_true(disj) else a.pc[:k] + (disj,)
+        if newpc_tail is not None:
+            res.pc = a.pc[:k] + newpc_tail
+        else:
+            disj = z3.simplify(z3.Or(ga, gb))
+            res.pc = a.pc[:k] if z3.is_true(disj) else a.pc[:k] + (disj,)
         for name, cnt in b.counters.items():
             if res.counters.get(name, 0) < cnt:
                 res.counters[name] = cnt
@@ -807,13 +934,17 @@ class Engine:
             if type(b) is not tuple or len(a) != len(b):
                 raise MergeFail("tuple shape")
             u = self.ir.under(tid) if tid is not None else None
-            if u is not None and u["k"] == "struct":
+            if u is not None and u["k"] == "struct" and len(u["fields"]) == len(a):
                 fs = u["fields"]
                 return tuple(x if x is y else self.merge_val(g, x, y, fs[i]["t"]) for i, (x, y) in enumerate(zip(a, b)))
             if u is not None and u["k"] == "array":
                 et = u["elem"]
+                info = self.ir.intinfo(et)
+                if info and info[0] == 8 and len(a) >= 4:
+                    # byte arrays (hashes, addresses) are merged as one wide word, keeping hash terms intact
+                    return self.unpack(z3.If(g, self.pack(a), self.pack(b)), len(a))
                 return tuple(x if x is y else self.merge_val(g, x, y, et) for x, y in zip(a, b))
-            if u is not None and u["k"] == "tuple":
+            if u is not None and u["k"] == "tuple" and len(u["elems"]) == len(a):
                 return tuple(x if x is y else self.merge_val(g, x, y, u["elems"][i]) for i, (x, y) in enumerate(zip(a, b)))
             return tuple(x if x is y else self.merge_val(g, x, y, None) for x, y in zip(a, b))
         if ta is bool or isinstance(a, z3.BoolRef):
@@ -843,16 +974,26 @@ class Engine:
             else:
                 bits = a.size() if is_sym(a) else b.size()
             return z3.If(g, tobv(a, bits), tobv(b, bits))
-        if a is None or b is None:
+        if (a is None or isinstance(a, (Iface, CondIface))) and (b is None or isinstance(b, (Iface, CondIface))) and \
+                (a is None or b is None or isinstance(a, CondIface) or isinstance(b, CondIface)):
             if a is None and b is None:
                 return None
+            ng = z3.Not(g)
+            alts = tuple((b_and(g, c), i) for c, i in _iface_alts(a)) + tuple((b_and(ng, c), i) for c, i in _iface_alts(b))
+            return CondIface(alts)
+        if a is None or b is None:
             raise MergeFail("nil vs non-nil %s" % tid)
         if ta is Iface:
-            if type(b) is Iface and a.tid == b.tid:
-                if a.val is b.val:
-                    return a
-                return Iface(a.tid, self.merge_val(g, a.val, b.val, a.tid))
-            raise MergeFail("iface dyn types differ")
+            if type(b) is Iface:
+                if a.tid == b.tid:
+                    if a.val is b.val:
+                        return a
+                    try:
+                        return Iface(a.tid, self.merge_val(g, a.val, b.val, a.tid))
+                    except MergeFail:
+                        pass
+                return CondIface(((g, a), (z3.Not(g), b)))
+            raise MergeFail("iface vs %s" % type(b).__name__)
         if ta is str:
             if a == b:
                 return a
@@ -900,7 +1041,7 @@ class Engine:
             if op == "Jump":
                 tgt = fr.fn["blocks"][fr.b]["succs"][0]
                 self.jump(st, fr, tgt)
-                if stop is not None and tgt == stop[1] and len(st.frames) == stop[0]:
+                if stop is not None and stop[0] == "blk" and tgt == stop[2] and len(st.frames) == stop[1] and fr.serial == stop[3]:
                     return "stop"
                 continue
             if op == "If":
@@ -911,14 +1052,27 @@ class Engine:
                 if c is True or c is False:
                     tgt = succs[0] if c else succs[1]
                     self.jump(st, fr, tgt)
-                    if stop is not None and tgt == stop[1] and len(st.frames) == stop[0]:
+                    if stop is not None and stop[0] == "blk" and tgt == stop[2] and len(st.frames) == stop[1] and fr.serial == stop[3]:
                         return "stop"
                     continue
                 if isinstance(c, Opaque):
                     raise Unsupported("branch on opaque value: %s" % c.why)
                 nc = b_not(c)
-                f1 = self.feasible(st, c)
-                f2 = self.feasible(st, nc) if f1 else True
+                self._neg[c.get_id()] = nc.get_id()
+                self._neg[nc.get_id()] = c.get_id()
+                self._keep.append((c, nc))
+                join0 = self.ir.ipdom(fr.fn)[fr.b]
+                if join0 < 0 and self.merging and self.ret_merging and len(st.frames) > base + 1 and not fr.discard:
+                    join0 = 1 << 30  # will merge at the function's return
+                if self.lazy_feasibility and self.merging and join0 >= 0:
+                    # optimistic if-conversion: both arms are explored without a feasibility query; a path that ends
+                    # badly inside an unchecked arm is checked for feasibility before it is reported (finish)
+                    f1 = f2 = True
+                    st.unchecked = True
+                    self.stats["unchecked_branches"] = self.stats.get("unchecked_branches", 0) + 1
+                else:
+                    f1 = self.feasible(st, c)
+                    f2 = self.feasible(st, nc) if f1 else True
                 if f1 and f2:
                     join = self.ir.ipdom(fr.fn)[fr.b]
                     depth = len(st.frames)
@@ -930,20 +1084,24 @@ class Engine:
                         return thunk
                     if join < 0:
                         join = None
+                        if self.merging and self.ret_merging and len(st.frames) > base + 1 and not fr.discard:
+                            join = "ret"
                     # a branch directly to the join block is fine (jump evaluates phis)
                     return ("fork", [(c, mk(t0)), (nc, mk(t1))], join, True)
                 tgt = succs[0] if f1 else succs[1]
                 st.assume(c if f1 else nc)
                 self.jump(st, fr, tgt)
-                if stop is not None and tgt == stop[1] and len(st.frames) == stop[0]:
+                if stop is not None and stop[0] == "blk" and tgt == stop[2] and len(st.frames) == stop[1] and fr.serial == stop[3]:
                     return "stop"
                 continue
             if op == "Return":
                 rs = [self.val(st, fr, o) for o in ins["results"]]
                 rv = rs[0] if len(rs) == 1 else tuple(rs)
-                r = self.do_return(st, rv, base)
+                r = self.do_return(st, rv, base, stop)
                 if r == "done":
                     return "done"
+                if r == "stop":
+                    return "stop"
                 continue
             if op == "RunDefers":
                 if fr.defers:
@@ -961,7 +1119,7 @@ class Engine:
                 # instruction-level fork: each alternative re-executes / completes the instruction itself
                 return ("fork", f.alts, None, False)
 
-    def do_return(self, st, rv, base):
+    def do_return(self, st, rv, base, stop=None):
         fr = st.frames.pop()
         if len(st.frames) <= base:
             st.retval = rv
@@ -974,6 +1132,8 @@ class Engine:
         if "r" in cins:
             caller.locals[cins["r"]] = rv
         caller.i += 1
+        if stop is not None and stop[0] == "ret" and stop[1] == fr.serial:
+            return "stop"
         return None
 
     def invoke_deferred(self, st, fr, d):
@@ -991,9 +1151,17 @@ class Engine:
             raise Unsupported("call of opaque func value: %s" % fnv.why)
         name = fnv.fn
         self.stats["calls"] += 1
+        if TRACE_CALLS:
+            print("  " * len(st.frames) + "CALL", name, [a if isinstance(a, (int, str, bool)) or a is None else type(a).__name__ for a in args][:6])
         intr = self.intrinsics.get(name)
         if intr is not None:
-            rv = intr(self, st, fr, args, ins)
+            self.current_binds = fnv.binds
+            try:
+                rv = intr(self, st, fr, args, ins)
+            except (AttributeError, TypeError, KeyError, IndexError) as e:
+                # typically a nil argument on a path that is infeasible (unchecked arm); reported as unsupported and
+                # dropped by finish() when the path condition is unsatisfiable
+                raise Unsupported("model of %s failed: %s: %s" % (name, type(e).__name__, e))
             if rv is _PUSHED:
                 if deferred:
                     st.frames[-1].discard = True
@@ -1042,6 +1210,27 @@ class Engine:
         self.functions_entered.add(fname)
         return _PUSHED
 
+    def resolve_iface(self, st, v):
+        """CondIface -> Iface or None, forking when both are feasible (the instruction is re-executed)"""
+        if not isinstance(v, CondIface):
+            return v
+        for c0, iface in v.alts:
+            c = c0 if (c0 is True or c0 is False) else simp(c0)
+            if c is True:
+                return iface
+            if c is False:
+                continue
+            nc = b_not(c)
+            self._neg[c.get_id()] = nc.get_id()
+            self._neg[nc.get_id()] = c.get_id()
+            self._keep.append((c, nc))
+            if self.must(st, c):
+                return iface
+            if self.must(st, nc):
+                continue
+            raise Fork([(c, lambda s: None), (nc, lambda s: None)])
+        return None
+
     def resolve_call(self, st, fr, ins):
         mode = ins["mode"]
         args = [self.val(st, fr, a) for a in ins["args"]]
@@ -1052,7 +1241,7 @@ class Engine:
         if mode == "dynamic":
             return self.val(st, fr, ins["fnv"]), args
         if mode == "invoke":
-            recv = self.val(st, fr, ins["recv"])
+            recv = self.resolve_iface(st, self.val(st, fr, ins["recv"]))
             if recv is None:
                 raise GoPanic("invoke %s on nil interface" % ins["method"])
             if isinstance(recv, Opaque):
@@ -1097,12 +1286,27 @@ class Engine:
         fr.i += 1
 
     allow_go = False
+    ret_merging = True
+    _neg = {}
+    lazy_feasibility = True
+    external_globals = {}
+    current_binds = ()
     arith = "bv"
     vector = None
     params = {}
     dump_smt2 = False
     keccak_apps = {}
     _kuf = {}
+
+    def keccak_facts(self):
+        """K_n(c) = v for every concrete evaluation of Keccak made in this run whose length also occurs symbolically"""
+        if len(self._facts_seen) != len(self.keccak_images):
+            for (n, out), inp in self.keccak_images.items():
+                if (n, out) in self._facts_seen or n not in self._kuf:
+                    continue
+                self._facts_seen.add((n, out))
+                self._facts.append(self._kuf[n](z3.BitVecVal(inp, 8 * n)) == z3.BitVecVal(out, 256))
+        return self._facts
 
     def keccak_uf(self, n):
         f = self._kuf.get(n)
@@ -1258,14 +1462,14 @@ class Engine:
         fr.i += 1
 
     def op_makemap(self, st, fr, ins):
-        oid = new_obj_id()
+        oid = st_oid(st)
         st.heap[oid] = GoMap((), {})
         self.objtype[oid] = ins["t"]
         fr.locals[ins["r"]] = MapRef(oid)
         fr.i += 1
 
     def op_makechan(self, st, fr, ins):
-        oid = new_obj_id()
+        oid = st_oid(st)
         size = self.val(st, fr, ins["size"])
         st.heap[oid] = GoChan((), size if isinstance(size, int) else 0, False)
         self.objtype[oid] = ins["t"]
@@ -1285,7 +1489,7 @@ class Engine:
 
     def new_slice(self, st, et, elems, ln=None):
         elems = tuple(elems)
-        oid = new_obj_id()
+        oid = st_oid(st)
         st.heap[oid] = elems
         self.objtype[oid] = self.array_tid(et, len(elems))
         return Slice(Ptr(oid, ()), 0, len(elems) if ln is None else ln, len(elems))
@@ -1368,7 +1572,7 @@ class Engine:
         raise GoPanic("explicit panic: %r" % (v,))
 
     def op_typeassert(self, st, fr, ins):
-        x = self.val(st, fr, ins["x"])
+        x = self.resolve_iface(st, self.val(st, fr, ins["x"]))
         at = self.ir.canon(ins["at"])
         commaok = ins["commaok"]
         if isinstance(x, Opaque):
@@ -1720,6 +1924,20 @@ class Engine:
                 raise Unsupported("slice == non-nil")
             return x == y
         if k == "iface":
+            if isinstance(x, CondIface) or isinstance(y, CondIface):
+                if y is None:
+                    return b_not(simp(x.cond))
+                if x is None:
+                    return b_not(simp(y.cond))
+                if isinstance(x, CondIface) and isinstance(y, CondIface):
+                    raise Unsupported("== between two conditional interface values")
+                ci, other = (x, y) if isinstance(x, CondIface) else (y, x)
+                res, earlier = False, False
+                for c, i in ci.alts:
+                    e = self.eq(i, other, tid)
+                    res = b_or(res, b_and(b_and(b_not(earlier) if earlier is not False else True, c), e))
+                    earlier = b_or(earlier, c)
+                return res if (res is True or res is False) else simp(res)
             if x is None or y is None:
                 return x is None and y is None
             if x.tid != y.tid:
@@ -1740,7 +1958,104 @@ class Engine:
             return False
         if all(type(a) is int for a in x) and all(type(b) is int for b in y):
             return tuple(x) == tuple(y)
-        return simp(self.pack(x) == self.pack(y))
+        px, py = self.pack(x), self.pack(y)
+        if px.get_id() == py.get_id():
+            return True
+        return simp(px == py)
+
+    def bytes_eq_inj(self, x, y):
+        """equality of byte strings as decided by the store (keys): Keccak collision-freeness is applied"""
+        if len(x) != len(y):
+            return False
+        if all(type(a) is int for a in x) and all(type(b) is int for b in y):
+            return tuple(x) == tuple(y)
+        px, py = self.pack(x), self.pack(y)
+        if len(x) == 32 and self.keccak_injective:
+            return self.heq(px, py)
+        return simp(px == py)
+
+    keccak_injective = True
+    keccak_images = {}  # (n, output int) -> input int   (concrete evaluations seen in this run)
+
+    def _is_kapp(self, t):
+        return z3.is_app(t) and t.num_args() == 1 and t.decl().name().startswith("K") and t.decl().kind() == z3.Z3_OP_UNINTERPRETED
+
+    def heq(self, a, b, depth=0):
+        """equality of two 256-bit terms under the stated collision-freeness assumption for Keccak:
+        K_n(x) = K_n(y) <=> x = y ; K_n(x) != K_m(y) for n != m ; K_n(x) = c for a concrete c that is a known image of p <=> x = p"""
+        if a.get_id() == b.get_id():
+            return True
+        if z3.is_bv_value(a) and z3.is_bv_value(b):
+            return a.as_long() == b.as_long()
+        if depth > 40:
+            return simp(a == b)
+        key = (a.get_id(), b.get_id())
+        r = self._heq_cache.get(key)
+        if r is None:
+            r = self._heq(a, b, depth)
+            self._heq_cache[key] = r
+            self._heq_cache[(key[1], key[0])] = r
+            self._keep.append((a, b))
+        return r
+
+    _heq_cache = {}
+
+    def _heq(self, a, b, depth):
+        self.stats["heq"] = self.stats.get("heq", 0) + 1
+        ia, ib = z3.is_app_of(a, z3.Z3_OP_ITE), z3.is_app_of(b, z3.Z3_OP_ITE)
+        if (ia and ib) or ((ia or ib) and depth > 6):
+            return a == b
+        for x, y in ((a, b), (b, a)):
+            if z3.is_app_of(x, z3.Z3_OP_ITE):
+                c = x.arg(0)
+                r1 = self.heq(x.arg(1), y, depth + 1)
+                r2 = self.heq(x.arg(2), y, depth + 1)
+                if r1 is r2 or (r1 is True and r2 is True) or (r1 is False and r2 is False):
+                    return r1
+                if r1 is True:
+                    return b_or(c, r2)
+                if r1 is False:
+                    return b_and(z3.Not(c), r2)
+                if r2 is True:
+                    return b_or(z3.Not(c), r1)
+                if r2 is False:
+                    return b_and(c, r1)
+                return z3.If(c, r1, r2)
+        ka, kb = self._is_kapp(a), self._is_kapp(b)
+        if ka and kb:
+            if a.decl().name() != b.decl().name():
+                return False
+            return self.arg_eq(a.arg(0), b.arg(0), depth + 1)
+        if (ka and z3.is_bv_value(b)) or (kb and z3.is_bv_value(a)):
+            k, v = (a, b) if ka else (b, a)
+            n = k.arg(0).size() // 8
+            pre = self.keccak_images.get((n, v.as_long()))
+            if pre is not None:
+                return self.arg_eq(k.arg(0), z3.BitVecVal(pre, 8 * n), depth + 1)
+            if self.keccak_no_unknown_preimage:
+                # a hash output never equals a constant that this run has not produced as a hash of that length
+                return False
+        return simp(a == b)
+
+    keccak_no_unknown_preimage = True
+
+    def arg_eq(self, x, y, depth):
+        if x.get_id() == y.get_id():
+            return True
+        w = x.size()
+        if w % 256 == 0 and w > 256:
+            r = True
+            for i in range(w // 256):
+                hi = w - 256 * i - 1
+                xa = z3.simplify(z3.Extract(hi, hi - 255, x))
+                ya = z3.simplify(z3.Extract(hi, hi - 255, y))
+                r = b_and(r, self.heq(xa, ya, depth))
+                if r is False:
+                    return False
+            return r if (r is True or r is False) else simp(r)
+        if w == 256:
+            return self.heq(x, y, depth)
+        return simp(x == y)
 
     # ---- byte packing (big endian: byte 0 is most significant)
     _pack_cache = {}
@@ -1983,13 +2298,13 @@ class Engine:
                 items = ()
             else:
                 items = st.heap[x.obj].items_list()
-            oid = new_obj_id()
+            oid = st_oid(st)
             st.heap[oid] = ("mapiter", tuple(items), 0)
             fr.locals[ins["r"]] = Ptr(oid, ())
         elif xu["k"] == "basic":
             if isinstance(x, SymStr):
                 raise Unsupported("range over symbolic string")
-            oid = new_obj_id()
+            oid = st_oid(st)
             items = []
             off = 0
             for ch in x:
